@@ -79,7 +79,8 @@ def check(ctx, rep):
         return st.index(t) if t in st else None
     order = [pos('dos_name = dos_name.upper()'), pos('trunk, ext = dos_splitext(dos_name)'), pos('trunk, ext = (trunk[:8], ext[:3])')]
     rep.ob('normalise.upper-split-truncate', 'dos_normalise_name: upper-case, split at the first dot, truncate to 8.3', None not in order and order == sorted(order), repr(st), ctx.where(dn))
-    first = dn.body[1] if isinstance(dn.body[0], ast.Expr) else dn.body[0]
+    real = [x for x in dn.body if not (isinstance(x, ast.Expr) and isinstance(x.value, ast.Constant))]
+    first = real[0] if real else None
     rep.ob('normalise.dot-names', "'.' and '..' are returned unchanged", isinstance(first, ast.If) and norm(first.test) == "dos_name in (b'.', b'..')"
            and norm(first.body[0]) == 'return dos_name', '', ctx.where(dn))
     rets = [norm(r.value) for r in own_nodes(dn) if isinstance(r, ast.Return)]
